@@ -21,7 +21,7 @@ PHASE_CAT = {'lexer.cpp': ('Lexical',), 'parser.cpp': ('Parse',), 'semantic_anal
              'module_loader.cpp': ('Semantic', 'Parse', 'Lexical'), 'type_system.cpp': ('Semantic',)}
 
 
-def _error_value(prog, e, cats, depth):
+def _error_value(prog, e, cats, depth, within=None):
     """e is BlochError(<phase category>, …), or a call of an error-building helper every return of which is one"""
     e = SX.strip(e)
     if not SX.is_node(e):
@@ -32,7 +32,14 @@ def _error_value(prog, e, cats, depth):
             return True
         # copy/move construction of another error value
         ra = SX.real_args(e)
-        return len(ra) == 1 and _error_value(prog, ra[0], cats, depth)
+        return len(ra) == 1 and _error_value(prog, ra[0], cats, depth, within)
+    if e['k'] == 'opcall' and e.get('op') == '()' and depth > 0 and within is not None and (e.get('t') or '').replace('const ', '').strip().endswith('BlochError'):
+        # a local error-building closure (`auto argumentError = [&](size_t i, const std::string& what) { return BlochError(…); }`)
+        lam = prog.closure_target(e, within)
+        if lam is None or not lam.body:
+            return False
+        rets = [r for r in SX.walk(lam.body, into_lambdas=False) if r['k'] == 'return']
+        return bool(rets) and all(_error_value(prog, r.get('e'), cats, depth - 1, lam) for r in rets)
     if e['k'] in ('call', 'mcall') and depth > 0 and (e.get('t') or '').replace('const ', '').strip().endswith('BlochError'):
         ts = [t for t in prog.resolve(e) if t.body]
         if len(ts) != 1:
@@ -327,7 +334,7 @@ def run(prog, chk):
                 ok, what = True, 'rethrow'
             else:
                 e = SX.strip(e)
-                ok = _error_value(prog, e, cats, 3)
+                ok = _error_value(prog, e, cats, 3, f)
                 if not ok and SX.is_node(e) and e['k'] == 'ref':
                     ok = 'BlochError' in e.get('t', '')    # rethrowing a caught BlochError object
                 what = SX.show(e)[:60]
@@ -698,10 +705,11 @@ def _filled_like(f, vref):
     return None
 
 
-def subscript_in_range(f, g, x):
-    """(ok, why) for one std::vector subscript x of function f with flow graph g — see analyser_subscripts"""
+def subscript_in_range(f, g, x, at=None):
+    """(ok, why) for one std::vector subscript x of function f with flow graph g — see analyser_subscripts.  `at`: judge x as if it were
+    evaluated where the expression `at` is (the call of a local closure whose body holds the subscript)"""
     V = SX.show(_peel(x['base']))
-    node = _cfg_node_containing(g, x)
+    node = _cfg_node_containing(g, x if at is None else at)
     ok, why = False, 'no dominating range test on %s' % V
     if node is not None:
         gs = list(g.guards(node))
@@ -739,6 +747,34 @@ def subscript_in_range(f, g, x):
     return ok, why
 
 
+def _through_closure_calls(prog, lam, x, why):
+    """a subscript in a local closure whose index is the closure's own parameter (`[&](size_t index) { … node.arguments[index] … }`) is in
+    range iff it is at every call of the closure, with the argument passed there: judged at each call site in the defining function
+    (the closure must not escape: every mention of its variable is a call)"""
+    i = SX.strip(x.get('i'))
+    pos = [k for k, p_ in enumerate(lam.params) if SX.is_node(i) and i.get('k') == 'ref' and i.get('id') == p_['id']]
+    own = {p_['id'] for p_ in lam.params} | {n['id'] for n in SX.walk(lam.body, into_lambdas=False) if n.get('k') == 'var' and n.get('id')}
+    if not pos or any(n.get('k') == 'ref' and n.get('id') in own for n in SX.walk(x.get('base'))):
+        return False, why
+    if any(SX.write_target(n) and SX.is_node(SX.strip(SX.write_target(n)[0])) and SX.strip(SX.write_target(n)[0]).get('id') == i['id'] for n in SX.walk(lam.body)):
+        return False, why
+    calls, closed = prog.closure_calls(lam)
+    if not calls or not closed:
+        return False, why
+    par = lam.parent
+    gp = prog.cfg(par)
+    for c in calls:
+        args = SX.real_args(c)[1:]
+        if pos[0] >= len(args):
+            return False, why
+        synth = dict(x)
+        synth['i'] = args[pos[0]]
+        ok, w2 = subscript_in_range(par, gp, synth, at=c)
+        if not ok:
+            return False, 'called at line %s with %s: %s' % (c.get('ln'), SX.show(args[pos[0]])[:20], w2)
+    return True, 'the index is the closure\'s parameter; in range at each of its %d call(s) in %s' % (len(calls), par.short)
+
+
 def analyser_subscripts(prog, chk):
     """R13.3 for the semantic analyser: every subscript of a std::vector is known to be in range where it is evaluated — by a
     dominating test `i < v.size()` on the same vector, by the bound of the enclosing counted loop (on the same vector, or on a
@@ -754,6 +790,8 @@ def analyser_subscripts(prog, chk):
         for x in subs:
             n += 1
             ok, why = subscript_in_range(f, g, x)
+            if not ok and f.kind == 'lambda' and f.parent is not None:
+                ok, why = _through_closure_calls(prog, f, x, why)
             chk.ob('R13.3', f, x.get('ln', f.ln), ok, 'analyser subscript %s: %s' % (SX.show(x)[:40], why), key='an-subscript:%s:%s' % (f.short, SX.show(x)[:30]))
     return n
 
